@@ -17,6 +17,9 @@ import (
 	"github.com/octohelm/gengo/pkg/namer"
 	gengotypes "github.com/octohelm/gengo/pkg/types"
 
+	appsv1 "verif/fixtures/apps/v1"
+	corev1 "verif/fixtures/core/v1"
+	"verif/fixtures/vt"
 	"verif/internal/core"
 	"verif/typgen"
 )
@@ -441,6 +444,101 @@ func check(sc scenario, res *core.Result) (string, string) {
 	return "", ""
 }
 
+// checkValueTwins: one value literal (snippet.Value is a writer built on the naming system too) that holds values of two
+// types with the SAME package name and type name from different import paths (apps/v1.Spec, core/v1.Spec), rendered
+// after the scenario's paths have taken their names in this writer. Every qualifier in the text must be the name the
+// writer's import table binds to the package that field's type comes from, and the table must hold exactly the
+// referenced packages.
+func checkValueTwins(sc scenario) (string, string) {
+	const appsPath, corePath, vtPath = "verif/fixtures/apps/v1", "verif/fixtures/core/v1", "verif/fixtures/vt"
+	var buf bytes.Buffer
+	tracker := namer.NewDefaultImportTracker()
+	sw := gengo.NewSnippetWriter(&buf, namer.NameSystems{"raw": namer.NewRawNamer(target, tracker)})
+	// some of the scenario's paths first (string references only: they need no fabricated world), so that names are taken
+	pre := map[string]bool{}
+	for i, ref := range sc.Refs {
+		if i >= 4 {
+			break
+		}
+		if s, ok := ref.Expr.RefString(); ok && ref.Expr.Kind == "named" && ref.Expr.Path != "" && ref.Expr.Path != target {
+			if pk, _, _ := core.Guard(func() { sw.Render(snippet.ID(s)) }); pk {
+				return "", "" // reported by the main pass
+			}
+			var ps []string
+			ref.Expr.Paths(&ps)
+			for _, p := range ps {
+				pre[p] = true
+			}
+		}
+	}
+	ka, kc := appsv1.Kind("ka"), corev1.Kind("kc")
+	v := vt.K8s{A: appsv1.Spec{Name: "a"}, C: corev1.Spec{Name: "c"}, PA: &ka, PC: &kc, LA: []appsv1.Spec{{Name: "la"}}, MC: map[string]corev1.Spec{"k": {Name: "mc"}}}
+	buf.Reset()
+	if pk, pv, _ := core.Guard(func() { sw.Render(snippet.Value(v)) }); pk {
+		return "render-panic", fmt.Sprintf("snippet.Value(vt.K8s{...}) panicked: %v", pv)
+	}
+	text := buf.String()
+	x, err := parser.ParseExpr(text)
+	if err != nil {
+		return "value-twins", fmt.Sprintf("snippet.Value(vt.K8s{...}) rendered %q which is not an expression: %v", text, err)
+	}
+	imports := tracker.Imports()
+	wantOf := map[string]string{"A": appsPath, "C": corePath, "PA": appsPath, "PC": corePath, "LA": appsPath, "MC": corePath}
+	top, ok := x.(*ast.CompositeLit)
+	if !ok {
+		return "value-twins", fmt.Sprintf("snippet.Value(vt.K8s{...}) rendered %q, not a composite literal", text)
+	}
+	if se, ok := top.Type.(*ast.SelectorExpr); !ok || fmt.Sprint(se.X) != imports[vtPath] {
+		return "value-twins", fmt.Sprintf("the literal's own type is not qualified with the name bound to %s (%q): %s", vtPath, imports[vtPath], firstLines(text, 3))
+	}
+	for _, el := range top.Elts {
+		kv, ok := el.(*ast.KeyValueExpr)
+		if !ok {
+			continue
+		}
+		field := fmt.Sprint(kv.Key)
+		path, ok := wantOf[field]
+		if !ok {
+			continue
+		}
+		var quals []string
+		ast.Inspect(kv.Value, func(n ast.Node) bool {
+			if se, ok := n.(*ast.SelectorExpr); ok {
+				if id, ok := se.X.(*ast.Ident); ok {
+					quals = append(quals, id.Name)
+				}
+			}
+			return true
+		})
+		if len(quals) == 0 {
+			return "value-twins", fmt.Sprintf("field %s of the rendered vt.K8s literal names no package at all: %s", field, text)
+		}
+		for _, q := range quals {
+			if q != imports[path] {
+				return "value-twins", fmt.Sprintf("field %s of the rendered vt.K8s literal (a value of a type of %s) is qualified with %q, but that package is bound to %q (imports %v):\n%s", field, path, q, imports[path], imports, text)
+			}
+		}
+		delete(wantOf, field)
+	}
+	if len(wantOf) > 0 {
+		return "value-twins", fmt.Sprintf("fields %v are missing from the rendered vt.K8s literal:\n%s", wantOf, text)
+	}
+	for _, p := range []string{appsPath, corePath, vtPath} {
+		if _, ok := imports[p]; !ok {
+			return "value-twins", fmt.Sprintf("package %q is referenced by the value literal but missing from Imports() %v", p, imports)
+		}
+	}
+	for p := range imports {
+		if p != appsPath && p != corePath && p != vtPath && !pre[p] {
+			return "value-twins", fmt.Sprintf("package %q is in Imports() but nothing references it", p)
+		}
+	}
+	if imports[appsPath] == imports[corePath] {
+		return "value-twins", fmt.Sprintf("%s and %s are both bound to %q", appsPath, corePath, imports[appsPath])
+	}
+	return "", ""
+}
+
 func firstLines(s string, n int) string {
 	ls := strings.Split(s, "\n")
 	if len(ls) > n {
@@ -489,6 +587,13 @@ func (p *prop) runScenario(res *core.Result, sc scenario) {
 		sh := shrink(sc, o)
 		_, m2 := check(sh, nil)
 		res.Fail(o, key(sh), fmt.Sprintf("%s\nshrunk to references [%s]: %s", m, key(sh), m2), sc)
+	}
+	// (every 16th scenario: the oracle's input varies only in the names already taken)
+	if res.Evals%16 == 0 {
+		if o, m := checkValueTwins(sc); m != "" {
+			res.Fail(o, "vt.K8s", m, sc)
+		}
+		res.Inc("value_literals_with_same_named_packages_checked")
 	}
 }
 
